@@ -235,6 +235,8 @@ TRACE = {
          "Random rotations (tiny, generic, nearly half-turn: all four extraction branches) are converted in both directions; TLC checks the quaternion-to-matrix polynomial entry by entry."),
  "C06": ("TLC trace validation: random access histories against the register machine (Trace_C06 extends MC_C06), M*v and transform_point on random reals (Trace_Poly)",
          "Random histories of constructors, entry writes and reads of every matrix / affine type are validated as actions of the MC_C06 machine; M*v = sum v[c] col(c) and transform_point = linear*p + translation are judged on random reals."),
+ "C08": ("TLC trace validation of all runs: the observation digest of a program step never depends on the hidden-lane payload (Trace_C08)",
+         "Every run (program x payload) is logged step by step; TLC accepts the log iff the digest of everything observable is a function of program and step alone."),
  "C09": ("TLC trace validation on random angles: the 24 Euler products from logged elementary rotations, axis-angle constructors and extractions (Trace_Rel euler, quat_mat)",
          "from_euler of every variant must equal the product of the three logged elementary rotations in the order the variant's name spells (elementary rotations checked for their exact 0/1 pattern and right-hand sign); to_euler and to_axis_angle rebuild the rotation."),
  "C10": ("replayed also in the glam-assert builds with scales 2^-10..2^10 and translations to 40; determinant = product of scales", ""),
